@@ -50,6 +50,10 @@ func (ial *IndentAwareLexer) checkNextToken() {
 func (ial *IndentAwareLexer) handleNewLineToken(currentToken antlr.Token) {
 	ial.pendingTokens.Enqueue(currentToken)
 
+	if ial.nextLineIsBlankOrComment() {
+		return // blank and comment-only lines do not take part in indentation tracking
+	}
+
 	currentIndentationLength := ial.getLengthOfNewlineToken(currentToken)
 
 	previousIndent := 0
@@ -113,4 +117,18 @@ func (ial *IndentAwareLexer) insertToken(text string, tokenType int) {
 	token := antlr.NewCommonToken(ial.GetTokenSourceCharStreamPair(), tokenType, antlr.TokenDefaultChannel, startIndex, stopIndex)
 	token.SetText(text)
 	ial.pendingTokens.Enqueue(token)
+}
+
+// nextLineIsBlankOrComment tells whether the line that starts after the newline token
+// that was just lexed (which includes the indentation of that line) holds nothing else
+// than whitespace or a comment.
+func (ial *IndentAwareLexer) nextLineIsBlankOrComment() bool {
+	input := ial.GetInputStream()
+	switch input.LA(1) {
+	case '\r', '\n':
+		return true
+	case '/':
+		return input.LA(2) == '/'
+	}
+	return false
 }
